@@ -16,6 +16,25 @@ TRUST = (
 
 # property id -> (level, technique, text, note, design section)
 CHECKS = {
+    "C04": (
+        "model_checking",
+        "exhaustive enumeration of all tiny tabular MDPs x all action scripts through the real on-policy collector; reference-collector trace validation",
+        "Every deterministic MDP with |S|<=3,|A|=2 (all transition tables, terminal/initial sets, own and TimeLimit time limits, masks, "
+        "Discrete/Box/vector-Box/MultiDiscrete/MultiBinary actions incl. out-of-bounds values) x every action script of the rollout length "
+        "(plus deviation-bounded scripts for long horizons) is pushed through the real algo.reset+algo.iteration of PPO/A2C/REINFORCE; "
+        "every buffer row, the carried state and the advantages are compared with a float64 reference collector.",
+        TRUST,
+        "5/C04",
+    ),
+    "C05": (
+        "model_checking",
+        "exhaustive enumeration of all tiny tabular MDPs x all behaviour scripts x buffer configurations through the real off-policy collector; slot-by-slot reference comparison",
+        "Same program family through DQN (Discrete) and SAC (Box) reset/warm-up and iterations over a grid of "
+        "(buffer_size, learning_starts, num_envs, num_steps); every slot of every per-environment replay buffer after every phase is "
+        "compared with the reference transition list (pre-reset successor observation, timeout = truncated and not terminal, restart after done, budgets).",
+        TRUST,
+        "5/C05",
+    ),
     "C06": (
         "model_checking",
         "explicit-state BFS over ring-buffer fill states driving the real add/sample; deque reference",
